@@ -122,6 +122,7 @@ hset_api!(HU64, u64, 8);
 hset_api!(HU32, u32, 4);
 hset_api!(HU8, u8, 1);
 hset_api!(HWeak, WeakHash, 0);
+hset_api!(HA32, A32, 32);
 
 pub struct HDecoded {
     pub size: usize,
@@ -151,7 +152,7 @@ pub fn hdecode<A: HApi>(bytes: &[u8]) -> HDecoded {
     let mut recs = vec![];
     for s in 0..slots {
         let b = &bytes[16 + s * rsz..16 + (s + 1) * rsz];
-        recs.push((le(&b[0..4]) as usize, le(&b[4..8]) as usize, le(&b[voff..voff + vs]) as i128));
+        recs.push((le(&b[0..4]) as usize, le(&b[4..8]) as usize, le(&b[voff..voff + vs.min(15)]) as i128));
     }
     HDecoded { size: w(0), cap: w(1), flh: w(2), seq: w(3), slots, recs }
 }
